@@ -92,8 +92,15 @@ class Driver(object):
     def __init__(self, exe):
         # binary, unbuffered pipes: select() on the descriptor must see everything that
         # has not been consumed yet (a buffered reader would hide lines from it)
+        # the back-end appends timing records to ./libtetrisched_performance.csv: run it
+        # inside its (git-ignored) build directory and start from an empty file
+        wd = os.path.dirname(os.path.abspath(exe))
+        try:
+            os.remove(os.path.join(wd, "libtetrisched_performance.csv"))
+        except OSError:
+            pass
         self.p = subprocess.Popen([exe], stdin=subprocess.PIPE, stdout=subprocess.PIPE,
-                                  bufsize=0)
+                                  bufsize=0, cwd=wd)
         self._buf = b""
 
     def _readline(self):
